@@ -68,6 +68,9 @@ def rotate_environment(ctx, shard_index: int) -> None:
         ctx.seen("environment", "warnings are errors")
     if __debug__ is False:
         ctx.seen("environment", "python -O (asserts stripped)")
+    if sys.flags.bytes_warning >= 2:
+        # (only where the unchanged tree is clean under it: han/dlde.py itself compares an int with bytes, so this is used for han/obis.py alone)
+        ctx.seen("environment", "python -bb (comparing bytes with str is an error)")
     mode = shard_index % 4
     if mode == 1:
         logging.disable(logging.NOTSET)
